@@ -450,6 +450,35 @@ def ob_wait_combine_spellings(form: int, d0: int, d1: int, d2: int, k: int, seed
     return True
 
 
+@obligation(quick=60, thorough=120,
+            what="`+` / sum() build a NEW strategy and leave their operands alone: after z = x + y (x a wait_combine held in a variable, also via "
+                 "sum([x, y]) and the reflected form) x still returns its own sum, z returns x + y, z is not x, and two sums derived from one "
+                 "shared base are independent of each other",
+            bounds={"parts": "stub strategies returning symbolic ints -1000..1000", "forms": "x + y / sum([x, y]) / plain + x / x + y twice from one base"})
+def ob_wait_combine_operands_unchanged(form: int, d0: int, d1: int, d2: int, d3: int, k: int) -> bool:
+    """
+    pre: 0 <= form <= 3 and -1000 <= d0 <= 1000 and -1000 <= d1 <= 1000 and -1000 <= d2 <= 1000 and -1000 <= d3 <= 1000 and 0 <= k <= 1000
+    post: _
+    """
+    log: list = []
+    a, b, c, d = _SW(d0, log, 0), _SW(d1, log, 1), _SW(d2, log, 2), _SW(d3, log, 3)
+    x = wait_combine(a, b)
+    if form == 0:
+        z = x + c
+    elif form == 1:
+        z = sum([x, c])
+    elif form == 2:
+        z = _PlainW(c) + x          # reflected: x.__radd__(plain)
+    else:
+        z = x + c
+        z2 = x + d                  # a second sum from the same base
+        if z2 is x or z2 is z or z2(k) != d0 + d1 + d3:
+            return False
+    if z is x:
+        return False
+    return x(k) == d0 + d1 and z(k) == d0 + d1 + d2 and x(k) == d0 + d1
+
+
 # ================================================================================================ Engine S: seed plumbing
 
 
